@@ -8,9 +8,10 @@ import SevenZ.Driver.Spec
 import SevenZ.Driver.Listing
 import SevenZ.Driver.Aes
 import SevenZ.Driver.Crc
+import SevenZ.Driver.Writer
 open SevenZ.Driver
 
-def handlers : List (String → List String → Option String) := [primHandler, headerHandler, pathHandler, decHandler, readerHandler, specHandler, listingHandler, aesHandler, crcHandler]
+def handlers : List (String → List String → Option String) := [primHandler, headerHandler, pathHandler, decHandler, readerHandler, specHandler, listingHandler, aesHandler, crcHandler, writerHandler]
 
 def step (line : String) : String :=
   match (line.trimAscii.toString.splitOn " ").filter (· ≠ "") with
